@@ -53,6 +53,7 @@ type Sched struct {
 	running     int // index of the client that ran last
 	mu          sync.Mutex
 	Deadlock    bool
+	Stuck       string // the client that was granted and never came back (when Deadlock)
 	// StopAt, when set, is consulted at every decision beyond the prefix; returning true ends the run early
 	// (state already explored).
 	StopAt func(key string) bool
@@ -61,11 +62,22 @@ type Sched struct {
 	Visible func(r *Req) bool
 	// OracleState is mixed into the state key (history facts the oracle depends on).
 	OracleState func() string
+	// Stall is how long the granted client may run without reaching its next point or finishing before the
+	// execution is declared stuck (Deadlock). Default CaseTimeout/2. A client that waits for another, parked,
+	// client through something the scheduler does not control shows up this way.
+	Stall time.Duration
 }
 
 // DefaultVisible: LIST and everything under root/.
 func DefaultVisible(r *Req) bool {
 	return r.Op == "LIST" || strings.Contains(r.Key, "/root/")
+}
+
+func (s *Sched) stall() time.Duration {
+	if s.Stall > 0 {
+		return s.Stall
+	}
+	return CaseTimeout / 2
 }
 
 // Boundary marks a statement boundary of client c (a scheduling point).
@@ -124,8 +136,9 @@ func (s *Sched) Execute() {
 			} else {
 				c.atPoint = l
 			}
-		case <-time.After(CaseTimeout / 2):
+		case <-time.After(s.stall()):
 			s.Deadlock = true
+			s.Stuck = c.Name
 		}
 	}
 	for i, c := range s.Clients {
@@ -210,7 +223,7 @@ func (s *Sched) abort() {
 				if l == "" {
 					c.done = true
 				}
-			case <-time.After(CaseTimeout / 2):
+			case <-time.After(s.stall()):
 				s.Deadlock = true
 				return
 			}
